@@ -151,6 +151,15 @@ class VNestWrite(_FloatOp):
         return FloatDataType(data.data)
 
 
+class VItemSum(_FloatOp):
+    """data + sum(items): consumes whatever iterable it is given (a list, a tuple, a one-shot iterator)."""
+
+    def _process_logic(self, data, items=None):
+        total = sum(float(x) for x in items) if items is not None else 0.0
+        _log("VItemSum", total=total)
+        return FloatDataType(data.data + total)
+
+
 class VBadWrite(_FloatOp):
     """Writes an undeclared context key."""
 
